@@ -122,4 +122,34 @@ example :
       (strs.map fun t => (pipeline t.m t.s buf ((scan T buf).filterMap fun x => if x.1 = t.idx then some (x.2.1, x.2.2) else none)).map (·.off))) =
       some [[1], [5, 9]] := by decide +kernel
 
+/-! ### The two hypotheses cannot be dropped: kernel-checked witnesses of F19 and F20 on the whole chain -/
+
+/-- the chain of `text_strings_end_to_end` for a single string, as a function -/
+def chainOffsets (t : TStr) (buf : Bytes) : Option (List Nat) :=
+  (build (atomsFor [t])).map fun T =>
+    (pipeline t.m t.s buf ((scan T buf).filterMap fun x => if x.1 = t.idx then some (x.2.1, x.2.2) else none)).map (·.off)
+
+/-- **F19 (known finding), negation witness.** Without `h19` the statement is false: `ascii wide xor(4-7)`, atom window 5 —
+    the buffer holds the string xored with key 3 (out of range) at offset 0; an in-range wide atom of another window raises a
+    verification at that offset and the verification accepts any key. The chain reports offset 0, the documented occurrences
+    are none. (corpus/C01 case k0, replayed on the real code by the check.) -/
+theorem full_statement_false_without_h19 :
+    let m : Mods := { ascii := true, wide := true, nocase := false, fullword := false, xor := some (4, 7) }
+    let s : Bytes := [0x42, 0xcc, 0x01, 0x00, 0x41, 0x63, 0x90, 0x20, 0xc4, 0x42]
+    let buf : Bytes := [0x41, 0xcf, 0x02, 0x03, 0x42, 0x60, 0x93, 0x23, 0xc7, 0x41, 0x67, 0x04, 0x94, 0x04, 0x24, 0x04, 0xc0, 0x04, 0x46, 0x04,
+      0x41, 0x20, 0x09, 0x4b, 0x87, 0x4b, 0x4a, 0x4b, 0x4b, 0x4b, 0x0a, 0x4b, 0x28, 0x4b, 0xdb, 0x4b, 0x6b, 0x4b, 0x8f, 0x4b, 0x09, 0x4b]
+    m.legal = true ∧ (5 + min 4 s.length ≤ s.length) ∧ chainOffsets ⟨0, 5, m, s⟩ buf = some [0] ∧ (occurrences m s buf).map (·.1) = [] := by
+  decide +kernel
+
+/-- **F20 (known finding), negation witness.** Without `h20` the statement is false: `ascii wide fullword` on a string with NUL
+    bytes — at offset 11 both encodings occur, the ascii one fails `fullword`, the wide one passes; verification stops at the
+    first encoding that compares equal and reports nothing, the documented occurrences contain offset 11. -/
+theorem full_statement_false_without_h20 :
+    let m : Mods := { ascii := true, wide := true, nocase := false, fullword := true, xor := none }
+    let s : Bytes := [0x42, 0x00, 0x00]
+    let buf : Bytes := [0x30, 0x39, 0xff, 0x00, 0x20, 0x39, 0x01, 0xff, 0x39, 0x00, 0x42, 0x42, 0x00, 0x00, 0x00, 0x00, 0x00, 0x20, 0x7a, 0x5f,
+      0x42, 0x30, 0x00, 0x42, 0x90, 0x00, 0x42, 0x20, 0x00, 0x42, 0x00, 0x20, 0x42, 0x00, 0x01]
+    m.legal = true ∧ (0 + min 4 s.length ≤ s.length) ∧ chainOffsets ⟨0, 0, m, s⟩ buf = some [] ∧ (occurrences m s buf).map (·.1) = [11] := by
+  decide +kernel
+
 end YaraModel.Text
